@@ -162,6 +162,10 @@ class SpawnBase(object):
     def _set_buffer(self, value):
         self._buffer = self.buffer_type()
         self._buffer.write(value)
+        # The untrimmed copy is what the next expect call searches and reports
+        # as before, so it has to be replaced as well.
+        self._before = self.buffer_type()
+        self._before.write(value)
 
     # This property is provided for backwards compatibility (self.buffer used
     # to be a string/bytes object)
